@@ -386,6 +386,8 @@ def change_path_validates_like_the_description(ctx):
     `previous` (partial structs are merged), and hands exactly that value on"""
     from sa.rules import c04
     c04.validated_value_is_used(ctx)
+    # a command described without argument accepts `null` only, one described with an argument needs data (C04.R2b)
+    c04.command_argument_presence_is_enforced(ctx)
     m = ctx.m
     f = m.method(D, '_setParameterValue', inherited=False)
     vals = [c for c in calls_in(f.node) if call_attr(c) == 'validate' and src(c.func.value).endswith('.datatype')]
